@@ -140,13 +140,11 @@ impl Decoder for ClientCodec {
                 .flags
                 .set(Flags::NOT_MODIFIED, req.status == StatusCode::NOT_MODIFIED);
 
-            if let Some(conn_type) = req.conn_type() {
-                // do not use peer's keep-alive
-                self.inner.conn_type = if conn_type == ConnectionType::KeepAlive {
-                    self.inner.conn_type
-                } else {
-                    conn_type
-                };
+            // do not use peer's keep-alive; without a Connection header the response's version
+            // decides (an HTTP/1.0 peer closes unless it said keep-alive)
+            let conn_type = req.connection_type();
+            if conn_type != ConnectionType::KeepAlive {
+                self.inner.conn_type = conn_type;
             }
 
             if !self.inner.flags.contains(Flags::HEAD) {
